@@ -432,6 +432,27 @@ def builtin_call(self, name, n, env):
         a, b = self.ev(n.args[0], env), self.ev(n.args[1], env)
         a, b = self.unify(a, b)
         return V(ite(a.t <= b.t, a.t, b.t) if name == "min" else ite(a.t >= b.t, a.t, b.t), a.s)
+    if name == "sum" and len(n.args) == 1 and isinstance(n.args[0], ast.GeneratorExp) \
+            and isinstance(n.args[0].elt, ast.Constant) and n.args[0].elt.value == 1:
+        # sum(1 for x in S if c(x)): the number of elements satisfying c - a fresh integer with what a count satisfies without a
+        # recursive definition: 0 <= n <= len(S), n == 0 iff none satisfies c, n == len(S) iff all do
+        g = n.args[0]
+        if len(g.generators) != 1:
+            raise E.Unsupported("nested generator in sum()")
+        gen = g.generators[0]
+        S = self.iter_seq(gen.iter, env, line)
+        j = ops.qvar("jq")
+        sub = E.Env(dict(env.locals), env.heap, env.alloc, True, env.old, env.result, env.yielded, dict(env.binders))
+        self.bind_target(gen.target, V(seq_get(S.t, j), S.s.elem), sub)
+        with E.PureGuard(self):
+            conds = [ops.truthy(self.ev(c, sub)) for c in gen.ifs]
+        c = z3.And(*conds) if conds else z3.BoolVal(True)
+        cnt = fresh("count", INT)
+        rng = z3.And(0 <= j, j < seq_len(S.t))
+        self.assume(0 <= cnt, cnt <= seq_len(S.t),
+                    (cnt == 0) == z3.ForAll([j], z3.Implies(rng, z3.Not(c)), patterns=[seq_get(S.t, j)]),
+                    (cnt == seq_len(S.t)) == z3.ForAll([j], z3.Implies(rng, c), patterns=[seq_get(S.t, j)]))
+        return V(cnt, INT)
     if name == "next":
         s = self.iter_seq(n.args[0], env, line)
         self.guard(seq_len(s.t) > 0, "StopIteration", line)
